@@ -193,6 +193,9 @@ func PairCases() []*Case {
 
 // Normalize rewrites msg in place: decimals to a canonical numeral, a present
 // but empty flattened sub-message to absent. Everything else is untouched.
+// keepEmptyFlatten: when set, Normalize only canonicalises decimals and Any payloads.
+var keepEmptyFlatten bool
+
 func Normalize(msg protoreflect.Message, m *Message, s *Schema) {
 	md := msg.Descriptor()
 	for _, f := range m.Fields {
@@ -232,7 +235,7 @@ func Normalize(msg protoreflect.Message, m *Message, s *Schema) {
 				continue
 			}
 			normElem(msg.Get(fd))
-			if f.Kind == KFlatten && isEmptyMessage(msg.Get(fd).Message()) {
+			if f.Kind == KFlatten && !keepEmptyFlatten && isEmptyMessage(msg.Get(fd).Message()) {
 				msg.Clear(fd)
 			}
 		case Repeated:
@@ -263,6 +266,18 @@ func isEmptyMessage(m protoreflect.Message) bool {
 
 // EqualNormalized compares two messages of the same type.
 func EqualNormalized(a, b protoreflect.Message, m *Message, s *Schema) bool {
+	ac := proto.Clone(a.Interface()).ProtoReflect()
+	bc := proto.Clone(b.Interface()).ProtoReflect()
+	Normalize(ac, m, s)
+	Normalize(bc, m, s)
+	return proto.Equal(ac.Interface(), bc.Interface())
+}
+
+// EqualStrict compares two messages exactly (presence included), with only
+// decimals compared numerically and Any payloads compared as messages.
+func EqualStrict(a, b protoreflect.Message, m *Message, s *Schema) bool {
+	keepEmptyFlatten = true
+	defer func() { keepEmptyFlatten = false }()
 	ac := proto.Clone(a.Interface()).ProtoReflect()
 	bc := proto.Clone(b.Interface()).ProtoReflect()
 	Normalize(ac, m, s)
